@@ -7,3 +7,16 @@ Open Scope string_scope.
 
 Lemma c13_fp_handoff : project keep_handoff parallel_solve_body = project keep_handoff parallel_solve_body_ref.
 Proof. vm_compute. reflexivity. Qed.
+
+(* The solver factory and the options factory are called once per run, from
+   concurrently running workers.  The ParallelDet model treats every worker as a
+   function of its own inputs: nothing may be shared between the solvers the
+   factories build, i.e. the returned closures capture no variable of the
+   enclosing factory function. *)
+From NR Require Import Gen.Skeleton_factories.
+Lemma c13_factories_share_nothing :
+  map (fun r => fst (fst (fst r))) factory_captures = ["DefaultSolverFactory"; "DefaultSolveOptionsFactory"] /\
+  forallb (fun r => match r with (_, n, used, assigned) =>
+                      Nat.eqb n 1 && match used with [] => true | _ => false end &&
+                      match assigned with [] => true | _ => false end end) factory_captures = true.
+Proof. vm_compute. split; reflexivity. Qed.
